@@ -84,8 +84,10 @@ func runRound(ns *rchord.VerifNodeState, ops []op, observe bool) ([]string, bool
 				}
 			}()
 			running.Add(1)
-			for !start.Load() {
-				runtime.Gosched()
+			for i := 1; !start.Load(); i++ { // bounded spin: stay on the P so that the release is simultaneous
+				if i%2000 == 0 {
+					runtime.Gosched()
+				}
 			}
 			if o.set {
 				ns.Set(chord.State(o.nxt))
@@ -101,8 +103,10 @@ func runRound(ns *rchord.VerifNodeState, ops []op, observe bool) ([]string, bool
 		owg.Add(1)
 		go func() {
 			defer owg.Done()
-			for !start.Load() {
-				runtime.Gosched()
+			for i := 1; !start.Load(); i++ { // bounded spin: stay on the P so that the release is simultaneous
+				if i%2000 == 0 {
+					runtime.Gosched()
+				}
 			}
 			for k := 0; k < 3; k++ {
 				// history first, then the word: every entry seen must be at an index <= the later word's index
@@ -250,9 +254,9 @@ func main() {
 		}
 	}
 	// (b) concurrent rounds
-	ncase := 2500
+	ncase := 6000
 	if r.Thorough() {
-		ncase = 80000
+		ncase = 60000
 	}
 	for c := 0; c < ncase; c++ {
 		r.Raw("reset")
